@@ -418,7 +418,7 @@ def weave(op_file, cfg):
         meta["trace_events"] += h["trace_events"]
         ind = mm.group(1)
         return f"{ind}/* ---- extracted from /repo/src/{op}.rs, closure `{lab}` ({cfg}) ---- */\n" + "\n".join(ind + l for l in body.split("\n")) + f"\n{ind}/* ---- end of extracted body ---- */"
-    text = re.sub(r'^([ \t]*)BODY!\("([^"]+)"\);', hole, text, flags=re.M)
+    text = re.sub(r'^([ \t]*)BODY!\("([^"]+)"\);?', hole, text, flags=re.M)
     missing = set(handlers) - used
     if missing:
         raise WeaveError(f"closures without a contract: {sorted(missing)} (closure structure changed)")
